@@ -24,6 +24,8 @@ run_directed = directed.run
 
 
 def cases(tier, rng):
+    for c in directed.member_attached_later_cases():
+        yield "directed-member-attached-later", c
     thorough = tier == "thorough"
     for c in directed.members_from_invariantless_bases_cases():
         yield "directed-members-from-invariantless-bases", c
